@@ -1,1 +1,31 @@
-import RosedVerif.Model.Ops
+/-
+C14 — Two-column layout is the aligned juxtaposition of two wrapped texts.
+(first instalment: column widths and totality; the juxtaposition clauses follow in CompositeLemmas)
+-/
+import RosedVerif.Model.InstAFacts
+namespace RosedVerif.Props
+open RosedVerif
+
+/-- for EVERY percentage (below 0, above 1, anything between), every width and every gap both
+columns are at least 2 wide and the operation continues with the wrap-and-combine body — the
+explicit panic of the source is unreachable -/
+theorem C14_columns_at_least_two {α : Type} [DecidableEq α] (cx : Ctx α) (ed : Editor α) (pos : Int)
+    (l r : List α) (gap width : Int) (pct : Pct) (o : Options α) (hne : ¬(l.isEmpty ∧ r.isEmpty)) :
+    ∃ leftW rightW, 2 ≤ leftW ∧ 2 ≤ rightW ∧
+      ed.insertTwoColumnsOpts cx pos l r gap width pct o = twoColBody cx ed pos l r gap leftW rightW o :=
+  insertTwoColumnsOpts_eq cx ed pos l r gap width pct o hne
+
+/-- at cluster level the whole operation is total for every gap ≥ 0 -/
+theorem C14_total_clusters {α : Type} [DecidableEq α] (cx : Ctx α)
+    (htriv : ∀ s, cx.ends s = List.range' 1 s.length) (hb : ∀ a, 0 < cx.blen a) (ed : Editor α) (p : Int)
+    (l r : List α) (g w : Int) (pct : Pct) (o : Options α) (hg : 0 ≤ g) :
+    ∃ x, ed.insertTwoColumnsOpts cx p l r g w pct o = .ok x :=
+  insertTwoColumnsOpts_total_triv cx htriv hb ed p l r g w pct o hg
+
+/-- both texts empty: nothing is inserted -/
+theorem C14_empty {α : Type} [DecidableEq α] (cx : Ctx α) (ed : Editor α) (p g w : Int) (pct : Pct)
+    (o : Options α) : ed.insertTwoColumnsOpts cx p [] [] g w pct o = .ok ed := by
+  simp [Editor.insertTwoColumnsOpts]
+  rfl
+
+end RosedVerif.Props
